@@ -134,7 +134,7 @@ class C02(Prop):
         return "ReceptorEstimator.system_capture/system_relative_capture/capture/relative_capture/register_*_adaptation"
 
     def plant(self, cases, outs):
-        outs[7]["sysrel"][0][0] += 1e-6
+        outs[7]["sysrel"][0][0] = outs[7]["sysrel"][0][0] * (1 + 1e-6) + 1e-6
 
 
 PROP = C02()
